@@ -73,7 +73,7 @@ def register_c11b(R):
                         " and implies(v is not None, is_ref(v) and not allocated(v) and setof(v) == tg_out(self, K)))"])
     R.library("datetime.datetime.now", signature="tz=None", returns="any", pure=True, ensures=["result is not None", "result is not absent()"])
     R.fields_of("TimestampingStreamResult", targets="list[Stream]")
-    R.contract(RR + "TimestampingStreamResult.status", props=["C11"], params={"args": "tuple", "kwargs": STATUS_KW},
+    R.contract(RR + "TimestampingStreamResult.status", props=["C11", "C13"], params={"args": "tuple", "kwargs": STATUS_KW},
                requires=["len(args) <= 2"], frame_hist=True, modifies=["$hist", "dict(kwargs)"],
                context={"K": "dictof(kwargs)"},
                ensures=[  # a supplied timestamp is forwarded unchanged
